@@ -113,7 +113,8 @@ func fontCases(n int) []*FontCase {
 			{"cff", "frac", 11, none, false}, {"cid", "frac", 9, none, true}, {"cff", "frachi", 4, none, false},
 			{"cid", "frachi", 7, none, false}, {"cff", "monofrac", 5, none, false}, {"cff", "frachi", 23, none, false},
 			// float widths within half a unit which truncate to different hmtx integers (603.0, 602.6)
-			{"cff", "driftdown", 2, none, false}, {"cid", "driftdown", 3, none, false},
+			// ... and different float widths which coincide there (600, 600.4, 600.8)
+			{"cff", "driftdown", 2, none, false}, {"cid", "driftdown", 3, none, false}, {"cff", "drift", 3, none, false},
 			// one font of every outline kind for every class of font matrix
 			{"ttf", "rand", 8, fmTranslate, false}, {"cff", "rand", 8, fmTranslate, false}, {"cid", "rand", 8, fmTranslate, true},
 			{"ttf", "rand", 7, fmShear, false}, {"cff", "mono", 7, fmShear, false}, {"cid", "rand", 7, fmShear, false},
